@@ -100,6 +100,40 @@ def opExport (j : Json) : R Json := do
                             conv := .error .os, html }
         let r := writeConv k P before
         pure (r.1, r.2, none, true, none, none)
+      else if mode == "proc" then
+        -- the real `LibreOfficeConverter` over the harness's fake `soffice`: the process run is data
+        -- (exit status + entries written), the verdict on it is the model's `procVerdict`
+        let fmt := (← strF cj "fmt").toList
+        let exit ← natF cj "exit"
+        let outS ← strF cj "out"
+        let ok : OutKind ← match outS with
+          | "none" => pure OutKind.none
+          | "full" => pure OutKind.full
+          | "trunc" => do pure (OutKind.trunc (← natF cj "n"))
+          | "empty" => pure OutKind.empty
+          | "part" => pure OutKind.part
+          | "sub" => pure OutKind.sub
+          | _ => throw s!"unknown output kind {outS}"
+        let sp : FakeSpec := { exit, out := ok, res := ← boolF cj "res", extra := ← boolF cj "extra" }
+        let outName := convName fmt [rtfName]
+        let explicit ← boolF cj "explicit"
+        let P : Params := { dir, tname, tmpRoot, tA, tB, rtfName, enc, explicitConv := explicit,
+                            conv := .ok (procConverter (fakeProc sp fmt) fmt), html }
+        let r := writeConv k P before
+        -- expectations stated from the run's outcome alone (not from the model's verdict function):
+        -- a non-zero exit status is a failed conversion whatever was written
+        let produced : Option (Bytes → Bytes) := match ok with
+          | .full => some (stubBytes fmt)
+          | .trunc n => some (fun b => (stubBytes fmt b).take n)
+          | .empty => some (fun _ => [])
+          | _ => none
+        let succeeded := exit == 0 && produced.isSome
+        let exp := match enc, produced with
+          | .ok b, some f => if exit == 0 then some (f b) else none
+          | _, _ => none
+        let must := (match enc with | .ok _ => false | .error _ => true) || !succeeded
+        let rn := if html && sp.res && succeeded then some (outName ++ filesSuffix) else none
+        pure (r.1, r.2, exp, must, rn, some outName)
       else
         let beh ← asBeh (← strF cj "beh")
         let fmt := (← strF cj "fmt").toList
